@@ -471,6 +471,9 @@ pub struct TwoLevelIterator {
 
     /// The block handle used to get the data block in the [`TwoLevelIterator::data_block`] field.
     data_block_handle: Option<BlockHandle>,
+
+    /// The error that stopped the iterator during a `next` or `prev` call if there was one.
+    step_error: Option<RainDBError>,
 }
 
 /// Private methods
@@ -485,6 +488,7 @@ impl TwoLevelIterator {
             index_block_iter,
             maybe_data_block_iter: None,
             data_block_handle: None,
+            step_error: None,
         }
     }
 
@@ -646,6 +650,10 @@ impl RainDbIterator for TwoLevelIterator {
                 );
                 #[cfg(feature = "verif_hooks")]
                 crate::verif::bump(crate::verif::Counter::IterErrorSwallowed);
+                // Keep the error for `take_error` and make sure that the iterator is invalid
+                self.step_error = Some(error.into());
+                self.maybe_data_block_iter = None;
+                self.data_block_handle = None;
                 return None;
             }
         }
@@ -678,6 +686,10 @@ impl RainDbIterator for TwoLevelIterator {
                 );
                 #[cfg(feature = "verif_hooks")]
                 crate::verif::bump(crate::verif::Counter::IterErrorSwallowed);
+                // Keep the error for `take_error` and make sure that the iterator is invalid
+                self.step_error = Some(error.into());
+                self.maybe_data_block_iter = None;
+                self.data_block_handle = None;
                 return None;
             }
         }
@@ -696,6 +708,10 @@ impl RainDbIterator for TwoLevelIterator {
         }
 
         self.maybe_data_block_iter.as_ref().unwrap().current()
+    }
+
+    fn take_error(&mut self) -> Option<Self::Error> {
+        self.step_error.take()
     }
 }
 
